@@ -345,7 +345,7 @@ func (g *Gen) applyCall(ci *callInfo, st *State, r string, pos token.Pos, argOve
 		// A check of property P may rely only on callee clauses that are themselves checked
 		// under P (clauses tagged P, or untagged ones): otherwise a change that breaks a clause
 		// checked only under another property would silently invalidate this proof.
-		if g.onlyProp != "" && !c.Trusted && len(en.Tags) > 0 && !propMatch(en.Tags, g.onlyProp) {
+		if g.onlyProp != "" && len(en.Tags) > 0 && !propMatch(en.Tags, g.onlyProp) {
 			continue
 		}
 		t := g.mustClause(post, en.E, fmt.Sprintf("call %s ensures#%d", ci.key, i))
